@@ -15,6 +15,38 @@ from .ref_sem import Lang, AModel
 _corelang = {}
 
 
+class TooExpensive(BaseException):
+    """the CPU budget of one case ran out (BaseException: it must pass through
+    `except Exception` in the code under test).  Never a verdict: the case is
+    skipped and counted."""
+
+
+class cpu_budget:
+    """context manager: raise TooExpensive after `seconds` of CPU time of this
+    process (ITIMER_VIRTUAL, so machine load does not matter)"""
+
+    def __init__(self, seconds):
+        self.seconds = seconds
+
+    def _fire(self, signum, frame):
+        raise TooExpensive('cpu budget of %ss used up' % self.seconds)
+
+    def __enter__(self):
+        import signal
+        self.old = signal.signal(signal.SIGVTALRM, self._fire)
+        signal.setitimer(signal.ITIMER_VIRTUAL, self.seconds)
+        return self
+
+    def __exit__(self, *a):
+        import signal
+        signal.setitimer(signal.ITIMER_VIRTUAL, 0)
+        signal.signal(signal.SIGVTALRM, self.old)
+        return False
+
+
+CASE_CPU_S = 4.0
+
+
 def corelang_spec(variant='core'):
     if variant not in _corelang:
         from . import env
@@ -56,9 +88,15 @@ class Built:
             self.lang, self.am, self.factory, Model,
             AttackerAttachment if attackers else None, explicit_ids=explicit_ids)
 
-    def attack_graph(self):
+    def attack_graph(self, cpu_s=CASE_CPU_S):
+        """generate the attack graph; the toolbox's evaluator keeps duplicates in
+        its lists and re-evaluates a subType operand once per target, so a few
+        generated cases are pathologically expensive: TooExpensive -> skip"""
         from maltoolbox.attackgraph import AttackGraph
-        return AttackGraph(self.lang_graph, self.model)
+        if cpu_s is None:
+            return AttackGraph(self.lang_graph, self.model)
+        with cpu_budget(cpu_s):
+            return AttackGraph(self.lang_graph, self.model)
 
 
 def shrink_case(case, still_fails, max_runs=120):
